@@ -70,11 +70,10 @@ def explain_unsat_timed_once(op_signal, intervals, a, b):
     op_intervals = []
     a = int(a)
     b = int(b)
-    if intervals:
-        begin, end = intervals[0]
-        exp_begin = min(begin + a, len(op_signal) - 1)
-        exp_end = min(end + b, len(op_signal) - 1)
-        op_intervals.append([exp_begin, exp_end])
+    for begin, end in intervals:
+        # once[a,b] at t looks back at [t-b, t-a]
+        if end - a >= 0:
+            op_intervals.append([max(begin - b, 0), end - a])
     op_intervals = interval_union(op_intervals)
     return op_intervals
 
